@@ -185,7 +185,7 @@ func (m *CPU) Run(app risc.Application) (int, error) {
 						isEmpty = false
 						resp := eu.Cycle(euReq{fromCycle, app})
 						if resp.err != nil {
-							return 0, nil
+							return 0, resp.err
 						}
 						if resp.flush {
 							log.Info(m.ctx, "\t️⚠️️⚠️ Proposition of an inner flush")
